@@ -595,6 +595,7 @@ def main():
     interface_name = 'aardvark'
     target_address = 0x20
     target_routing = None
+    target_channel = None
     rmcp_host = None
     rmcp_port = 623
     rmcp_user = ''
@@ -613,7 +614,7 @@ def main():
         elif o == '-t':
             target_address = int(a, 0)
         elif o == '-b':
-            target_routing = [(0x20, int(a, 0), 0)]
+            target_channel = int(a, 0)
         elif o == '-r':
             target_routing = a
         elif o == '-H':
@@ -672,6 +673,12 @@ def main():
 
     ipmi = pyipmi.create_connection(interface)
     ipmi.target = pyipmi.Target(target_address)
+
+    if target_routing is None and target_channel is not None:
+        # -b: reach the target behind the BMC over the given channel
+        # (see Target.set_routing, example #1)
+        target_routing = [(0x81, 0x20, target_channel),
+                          (0x20, target_address, None)]
 
     if target_routing is not None:
         ipmi.target.set_routing(target_routing)
